@@ -14,7 +14,9 @@ RULE = ("circuits: trees (nesting depth <= 2) over m <= 4 spatial modes mixing W
         "without components included (nested on 1 / 2 modes, and the empty circuit). inputs: <= 3 photons, per mode "
         "nothing / n unannotated photons / one polarisation (labels H V D A L R or an elliptical Jones vector "
         "(cos a, e^{i phi} sin a) with rational components) / two orthogonal polarisations (H/V, D/A, L/R or an "
-        "elliptical vector and its exact complement), the vacuum, and a malformed stream (non-orthogonal pairs, three "
+        "elliptical vector and its exact complement), photons WITHOUT P annotation (plain, or tagged {_:1}) sharing a mode "
+        "with annotated ones of every label and numeric vectors (plain + H, plain + V, 2 plain + V, plain + (0, e^{i phi}), "
+        "plain + H/V pair: accepted; plain + D/A/L/R/elliptical: rejected), the vacuum, and a malformed stream (non-orthogonal pairs, three "
         "vectors). Compared: compute_unitary(use_polarization=True) with the model matrix (1e-9), "
         "convert_polarized_state with the model (spatial input exact, preparation matrix 1e-6), "
         "SimulatorFactory.build(c[, Naive]).probs / .evolve and Processor.with_polarized_input + probs with the exact "
@@ -190,11 +192,12 @@ def build(src):
 
 # ------------------------------------------------------------------ polarisations and inputs
 class Pol:
-    def __init__(self, key, eh, ev, theta, phi, elliptical=False):
+    def __init__(self, key, eh, ev, theta, phi, elliptical=False, plain=False):
         self.key, self.eh, self.ev, self.theta, self.phi, self.elliptical = key, eh, ev, theta, phi, elliptical
+        self.plain = plain          # read back from a photon without P annotation: the MODEL decides what it means
 
     def jones(self):
-        return [self.eh, self.ev]
+        return [] if self.plain else [self.eh, self.ev]
 
 
 LABEL_ORDER = ["H", "V", "D", "A", "R", "L"]         # order of coq/Model/PolarX.v all_labels
@@ -242,7 +245,11 @@ class InputSpec:
             elif all(p is None for p in md):
                 out.append(str(len(md)))
             else:
-                out.append("".join("{P:%s}" % p.key for p in md if p is not None))
+                # annotated photons, then photons carrying another tag but no P, then the count of plain photons
+                txt = "".join("{P:%s}" % p.key for p in md if p is not None and p != "tag")
+                txt += "{_:1}" * sum(1 for p in md if p == "tag")
+                nplain = sum(1 for p in md if p is None)
+                out.append(txt + (str(nplain) if nplain else ""))
         return "|" + ",".join(out) + ">"
 
     def n(self):
@@ -258,6 +265,34 @@ def rand_input(rng, m, labels, nmax, kind):
         return InputSpec(modes)
     if kind == "bad" and nmax >= 3:
         budget = max(budget, 3)
+    if kind == "mixed":
+        # one spatial mode holds photons WITHOUT P annotation (plain, or another tag only) together with annotated ones
+        budget = max(budget, 2)
+        k = rng.below(m)
+        x = rng.below(12)
+        room = max(1, budget - 1)
+        if x < 3:
+            ann = [labels[rng.choice(["H", "V"])]] * rng.rint(1, min(2, room))
+        elif x < 5:
+            p = rand_ang(rng, allow_trivial=False)
+            ann = [make_elliptical(Ang(0, 1, 1), p.cos, p.sin)] * rng.rint(1, min(2, room))     # (0, e^{i phi}): orthogonal to H
+        elif x < 7 and budget >= 3:
+            ann = rng.shuffle([labels["H"], labels["V"]] + ([rng.choice([labels["H"], labels["V"]])] if budget >= 4 else []))
+        elif x < 10:
+            ann = [labels[rng.choice(["D", "A", "L", "R"])]] * rng.rint(1, min(2, room))      # not orthogonal to H: rejected
+        elif x < 11:
+            ann = [rand_elliptical(rng)]
+        else:
+            ann = [labels["D"], labels["A"]] if budget >= 3 else [labels["A"]]
+        nplain = rng.rint(1, max(1, min(2, budget - len(ann))))
+        modes[k] = ann + [("tag" if rng.chance(1, 4) else None) for _ in range(nplain)]
+        budget -= len(modes[k])
+        for k2 in rng.shuffle(range(m)):
+            if k2 != k and budget > 0 and rng.chance(1, 2):
+                c = rng.rint(1, min(2, budget))
+                modes[k2] = [None] * c if rng.chance(1, 3) else [rng.choice([labels[rng.choice(LABEL_ORDER)], rand_elliptical(rng)])] * c
+                budget -= c
+        return InputSpec(modes)
 
     def one():
         r = rng.below(10)
@@ -320,7 +355,7 @@ def read_back(state, spec: InputSpec, labels):
     pool = {}
     for md in spec.modes:
         for p in md:
-            if p is not None:
+            if p is not None and p != "tag":
                 pool[p.key] = p
     out, idx = [], 0
     for k in range(state.m):
@@ -329,7 +364,8 @@ def read_back(state, spec: InputSpec, labels):
             z = complex(state.get_photon_annotation(idx).get("P", -9j))
             idx += 1
             if z == -9j:
-                row.append(labels["H"])
+                h = labels["H"]
+                row.append(Pol("H", h.eh, h.ev, 0.0, 0.0, plain=True))
                 continue
             best = min(pool.values(), key=lambda p: abs(p.theta - z.real) + abs(p.phi - z.imag))
             if abs(best.theta - z.real) + abs(best.phi - z.imag) > 1e-5:
@@ -341,6 +377,11 @@ def read_back(state, spec: InputSpec, labels):
 
 def model_input(rows):
     return [[p.jones() for p in row] for row in rows]
+
+
+def mixed_mode(rows):
+    """some mode holds a photon without P annotation together with a photon of another polarisation"""
+    return any(any(p.plain for p in row) and any(p.key != "H" for p in row) for row in rows)
 
 
 def classes(rows):
@@ -622,7 +663,7 @@ def run(ctx):
     for i in range(n_conv):
         r = rng.fork(("conv", i))
         m = r.rint(1, mmax)
-        kind = r.choice(["single"] * 3 + ["pair"] * 4 + ["bad"] * 2 + ["vacuum"])
+        kind = r.choice(["single"] * 3 + ["pair"] * 3 + ["mixed"] * 4 + ["bad"] * 2 + ["vacuum"])
         spec = rand_input(r, m, labels, nmax + 1, kind)
         state = pcvl.BasicState(spec.string())
         rows = read_back(state, spec, labels)
@@ -630,7 +671,7 @@ def run(ctx):
     outs = ctx.model.run([(F_CONVERT, model_input(rows)) for _, _, rows, _ in convs])
     for (spec, state, rows, kind), out in zip(convs, outs):
         fails = check_convert(state, out)
-        nt = classes(rows) >= 2 or any(p.elliptical for row in rows for p in row)
+        nt = classes(rows) >= 2 or any(p.elliptical for row in rows for p in row) or mixed_mode(rows)
         ctx.case(["convert", sx(model_input(rows))], nt,
                  one_sample("convert", nt and out[0] == 0, {"stream": "convert", "state": spec.string(), "spatial_input": out[1]}))
         ctx.count("convert." + kind)
@@ -646,7 +687,7 @@ def run(ctx):
         r = rng.fork(("sim", i))
         m = r.rint(1, mmax)
         tree = rand_tree(r, m, empties=False, need_polar=True)
-        kind = r.choice(["single"] * 5 + ["pair"] * 5 + ["bad"]) if i % 25 else "vacuum"
+        kind = r.choice(["single"] * 4 + ["pair"] * 4 + ["mixed"] * 4 + ["bad"]) if i % 25 else "vacuum"
         spec = rand_input(r, m, labels, nmax if m <= 3 else min(nmax, 3), kind)
         sims.append((tree, spec, kind))
     prepared = []
@@ -660,12 +701,12 @@ def run(ctx):
         st = pcvl.BasicState(sp_.string())
         rw = read_back(st, sp_, labels)
         o = ctx.model.run([(F_PROBS, [t.model(), model_input(rw)])])[0]
-        return check_probs(t, st, rw, o, extra=False)
+        return check_probs(t, st, rw, o, extra=True)
 
     spec_sample = []
     for j, ((tree, spec, kind, state, rows), out) in enumerate(zip(prepared, outs)):
         fails = check_probs(tree, state, rows, out, extra=(j % 2 == 0))
-        ell = any(p.elliptical for row in rows for p in row)
+        ell = any(p.elliptical for row in rows for p in row) or mixed_mode(rows)
         nontriv = False
         if out[0] == 0 and ell:
             U = np.array(build(tree.source()).compute_unitary(use_polarization=True))
@@ -745,7 +786,8 @@ def all_h_input(rng, m, labels, nmax):
         if rng.chance(1, 3):
             continue
         c = rng.rint(1, min(2, budget))
-        modes[k] = [None] * c if rng.chance(1, 3) else [labels["H"]] * c
+        r3 = rng.below(4)
+        modes[k] = [None] * c if r3 == 0 else ([labels["H"]] * c if r3 < 3 or c < 2 else [labels["H"], None])
         budget -= c
     if all(not md for md in modes):
         modes[rng.below(m)] = [labels["H"]]
@@ -767,7 +809,7 @@ def rand_session(rng, labels, nmax):
         elif x < 10:
             spec = all_h_input(rng, m, labels, nmax)
         else:
-            spec = rand_input(rng, m, labels, nmax, rng.choice(["single"] * 5 + ["pair"] * 3 + ["bad", "vacuum"]))
+            spec = rand_input(rng, m, labels, nmax, rng.choice(["single"] * 4 + ["pair"] * 3 + ["mixed"] * 3 + ["bad", "vacuum"]))
         prev.append(spec)
         ops.append(("q", spec, "evolve" if rng.chance(1, 5) else "probs"))
     return [("carrier", carrier)] + ops
@@ -994,7 +1036,12 @@ def corpus_sims(labels):
     al = Ang(8, 15, 17)
     e1 = make_elliptical(al, Fraction(3, 5), Fraction(4, 5))
     e2 = complement((al, Fraction(3, 5), Fraction(4, 5)))
-    return [(t1, InputSpec([[H, V], []]), "pair"),            # minimal witness of the (repaired) two-polarisation defect
+    return [(t1, InputSpec([[V, None], []]), "mixed"),         # |{P:V}1,0>: one V photon and one plain (= H) photon in a mode
+            (t1, InputSpec([[H, None], []]), "mixed"),
+            (t2, InputSpec([[V, V, None], []]), "mixed"),
+            (t2, InputSpec([[V, "tag"], [None]]), "mixed"),
+            (t2, InputSpec([[D, None], []]), "mixed"),         # rejected: D is not orthogonal to the plain photon's H
+            (t1, InputSpec([[H, V], []]), "pair"),            # minimal witness of the (repaired) two-polarisation defect
             (t2, InputSpec([[D, A, D], []]), "pair"),
             (t2, InputSpec([[H], [L, Rr]]), "pair"),
             (t2, InputSpec([[e1, e2], [ell]]), "pair"),       # elliptical vector + exact complement, asymmetric elements
